@@ -42,12 +42,12 @@ def _strategy(tier, var):
         hi = (40 if dim == 2 else 14) if tier == "quick" else (64 if dim == 2 else 20)
         if nmode == "large":
             return {"dim": dim, "kernel": kt, "dtype": dtype, "dx": ibm.DX_PALETTE[0], "n": n,
-                    "shape": draw(gen.grid_shape(dim, 8, hi)), "marker_key": draw(gen.block_keys),
+                    "shape": _elongate(draw, draw(gen.grid_shape(dim, 8, hi)), dim, tier), "marker_key": draw(gen.block_keys),
                     "markers": draw(ibm.marker_spec(dim, 6)),
                     "affine": draw(st.lists(gen.floats(-4.0, 4.0, 32), min_size=4, max_size=4)),
                     "const": draw(gen.floats(-100.0, 100.0, 32)), "probe": draw(st.integers(0, 639))}
         return {"dim": dim, "kernel": kt, "dtype": dtype, "dx": draw(st.sampled_from(ibm.DX_PALETTE)), "n": n,
-                "shape": draw(gen.grid_shape(dim, 6, hi)), "markers": draw(ibm.marker_spec(dim, n)),
+                "shape": _elongate(draw, draw(gen.grid_shape(dim, 6, hi)), dim, tier), "markers": draw(ibm.marker_spec(dim, n)),
                 "affine": draw(st.lists(gen.floats(-4.0, 4.0, 32), min_size=4, max_size=4)),
                 "const": draw(gen.floats(-100.0, 100.0, 32)),
                 "probe": draw(st.integers(0, 32))}
@@ -69,6 +69,17 @@ def _sim_position_field(dim, shape, dxr, real_t):
     return sim.position_field, sim.dx
 
 
+def _elongate(draw, shape, dim, tier):
+    """with probability 1/4 stretch one axis (markers then sit at large coordinates / cell indices)"""
+    if draw(st.integers(0, 3)) != 0:
+        return shape
+    ax = draw(st.integers(0, dim - 1))
+    long_n = draw(st.integers(200 if dim == 2 else 60, (1500 if dim == 2 else 300) if tier == "thorough" else (500 if dim == 2 else 120)))
+    shape = [min(n, 8) for n in shape]
+    shape[ax] = long_n
+    return shape
+
+
 def _body(case, ctx):
     dim, kt, n = case["dim"], case["kernel"], case["n"]
     real_t = gen.np_dtype(case["dtype"])
@@ -82,6 +93,9 @@ def _body(case, ctx):
         nearest, support, w = ibm.compute_weights(com, pos, dim, n, real_t)
     W = w.astype(np.float64)
     vol = dx**dim
+    # cell-centre minus marker coordinates are differences of numbers of size |X|: every distance carries a rounding of
+    # eps64*|X|, i.e. eps64*|X|/dx in cell units - "up to rounding" includes this term (it matters on elongated grids)
+    ceps = float(np.finfo(np.float64).eps) * (float(np.max(np.abs(pos))) / dx + 1.0)
     # admissibility of the computed support (documented: 4 nearest cells per direction)
     for c in range(dim):
         nc = shape[dim - 1 - c]
@@ -91,7 +105,7 @@ def _body(case, ctx):
     if np.any(W < -4 * eps * wmax) or not np.all(np.isfinite(W)):
         raise Violation(f"negative interpolation weight {float(W.min())!r} (max weight {wmax!r}, {kt}, {case['dtype']})")
     sums = W.reshape(-1, n).sum(axis=0) * vol
-    if np.any(np.abs(sums - 1.0) > 16 * eps):
+    if np.any(np.abs(sums - 1.0) > 16 * eps + 16 * ceps):
         m = int(np.argmax(np.abs(sums - 1.0)))
         raise Violation(f"weights of marker {m} ({labels[m]}) at {pos[:, m].tolist()} sum to {sums[m]!r} != 1 ({kt}, dx {dx}, {case['dtype']})")
     # cell coordinates of the support (float64) from the returned nearest indices
@@ -109,7 +123,7 @@ def _body(case, ctx):
             raise Violation(f"non-zero weight {float(np.max(np.abs(W[far])))!r} at a cell farther than 2dx from the marker ({kt})")
     if kt == "peskin":
         for c in range(dim):
-            if np.any(np.abs(first[c]) > 16 * eps * dx):
+            if np.any(np.abs(first[c]) > 16 * (eps + ceps) * dx):
                 m = int(np.argmax(np.abs(first[c])))
                 raise Violation(f"Peskin kernel first moment along axis {c} is {first[c][m]!r} != 0 for marker {m} ({labels[m]}) (dx {dx})")
     # spreading of a unit scalar from one marker: zero beyond two cells in any direction
@@ -126,7 +140,7 @@ def _body(case, ctx):
         farmask |= np.abs(grids[dim - 1 - c] - pos[c, m]) > 2 * dx * (1 + 4 * eps)
     if np.any(np.abs(eul[farmask].astype(np.float64)) > 4 * eps * wmax):
         raise Violation(f"unit spread from marker {m} ({labels[m]}) is non-zero at a cell farther than 2dx in some direction ({kt})")
-    if abs(float(eul.astype(np.float64).sum()) * vol - 1.0) > 32 * eps:
+    if abs(float(eul.astype(np.float64).sum()) * vol - 1.0) > 32 * eps + 16 * ceps:
         raise Violation(f"unit spread from marker {m} integrates to {float(eul.astype(np.float64).sum()) * vol!r} != 1")
     # interpolation of constant / affine / position fields
     lagout = np.zeros(n, dtype=real_t)
@@ -139,7 +153,7 @@ def _body(case, ctx):
 
     cval = real_t(case["const"])
     got = interp(np.full(shape, cval, dtype=real_t))
-    if np.any(np.abs(got - float(cval)) > 16 * eps * abs(float(cval)) + 64 * float(np.finfo(real_t).tiny)):
+    if np.any(np.abs(got - float(cval)) > 16 * (eps + ceps) * abs(float(cval)) + 64 * float(np.finfo(real_t).tiny)):
         raise Violation(f"constant field {float(cval)!r} interpolated to {got.tolist()} ({kt}, {case['dtype']})")
     if kt == "peskin":
         a = case["affine"]
@@ -148,7 +162,7 @@ def _body(case, ctx):
         got = interp(aff)
         want = a[3] + sum(a[c] * pos[c] for c in range(dim))
         fmax = float(np.max(np.abs(aff64)))
-        if np.any(np.abs(got - want) > 16 * eps * fmax):
+        if np.any(np.abs(got - want) > 16 * (eps + ceps) * fmax):
             mm = int(np.argmax(np.abs(got - want)))
             raise Violation(f"Peskin kernel does not reproduce an affine field at marker {mm} ({labels[mm]}): {got[mm]!r} vs {want[mm]!r}")
         with ctx.repo_call("simulator position_field"):
@@ -157,7 +171,7 @@ def _body(case, ctx):
             for c in range(dim):
                 got = interp(np.ascontiguousarray(pf[c]))
                 fmax = float(np.max(np.abs(pf[c])))
-                if np.any(np.abs(got - pos[c]) > 16 * eps * fmax):
+                if np.any(np.abs(got - pos[c]) > 16 * (eps + ceps) * fmax):
                     mm = int(np.argmax(np.abs(got - pos[c])))
                     raise Violation(f"interpolating the simulator's position_field[{c}] returns {got[mm]!r} at marker {mm} located at {pos[c, mm]!r}")
             ctx.note(labels=["position_field_checked"])
@@ -170,7 +184,7 @@ def _body(case, ctx):
                 dropped += 1
     special = {lab for lab in labels if lab not in ("uniform",)}
     ctx.note(nontrivial=bool(special - {"same_cell", "duplicate"}),
-             labels=[f"{dim}d_{kt}_{case['dtype']}", f"markers_{n}"] + sorted(special) + (["floor_index_shifted"] if dropped else []))
+             labels=[f"{dim}d_{kt}_{case['dtype']}", f"markers_{n}"] + (["elongated_grid"] if max(shape) >= 100 else []) + sorted(special) + (["floor_index_shifted"] if dropped else []))
 
 
 PARTS = [
